@@ -1,16 +1,1214 @@
 package main
 
-func (e *Engine) resolveOrder(n *Node) {}
+// Model of fxamacker/cbor v2.5.0 as an option-parameterised tree codec
+// (DESIGN.md §4.1). Everything here is trusted base, validated differentially.
+
+import (
+	"fmt"
+	"go/types"
+	"strings"
+	"unicode/utf8"
+
+	"golang.org/x/tools/go/ssa"
+)
+
+const cborPath = "github.com/fxamacker/cbor/v2"
+
+func (e *Engine) optField(sv *StructV, typeName, field string) uint64 {
+	st := e.lookupType(cborPath, typeName).Underlying().(*types.Struct)
+	for i := 0; i < st.NumFields(); i++ {
+		if st.Field(i).Name() == field {
+			t, ok := sv.fields[i].(*Term)
+			if !ok || !t.isConst() {
+				e.unsupported("non-constant cbor option " + field)
+			}
+			return t.u64()
+		}
+	}
+	e.unsupported("cbor option field not found: " + field)
+	return 0
+}
+
+func namedIs(t types.Type, pkg, name string) bool {
+	n, ok := t.(*types.Named)
+	return ok && n.Obj().Pkg() != nil && n.Obj().Pkg().Path() == pkg && n.Obj().Name() == name
+}
+
+// findMethod looks for a method in the method set of T or *T.
+func (e *Engine) findMethod(t types.Type, name string) (*ssa.Function, bool) {
+	if _, isPtr := t.Underlying().(*types.Pointer); !isPtr {
+		if _, isIface := t.Underlying().(*types.Interface); isIface {
+			return nil, false
+		}
+	}
+	ms := e.prog.MethodSets.MethodSet(t)
+	for i := 0; i < ms.Len(); i++ {
+		if ms.At(i).Obj().Name() == name {
+			return e.prog.MethodValue(ms.At(i)), false
+		}
+	}
+	if _, isPtr := t.(*types.Pointer); !isPtr {
+		ms = e.prog.MethodSets.MethodSet(types.NewPointer(t))
+		for i := 0; i < ms.Len(); i++ {
+			if ms.At(i).Obj().Name() == name {
+				return e.prog.MethodValue(ms.At(i)), true
+			}
+		}
+	}
+	return nil, false
+}
+
+// ---- encoding --------------------------------------------------------------------------------------
+
+type encCtx struct {
+	sort          int
+	tagsForbidden bool
+	nilAsNull     bool
+}
 
 func (e *Engine) cborMarshal(opts *StructV, v Iface) Value {
-	e.unsupported("cbor marshal model not built")
-	return nil
+	ctx := encCtx{
+		sort:          int(e.optField(opts, "EncOptions", "Sort")),
+		tagsForbidden: e.optField(opts, "EncOptions", "TagsMd") == 1,
+		nilAsNull:     e.optField(opts, "EncOptions", "NilContainers") == 0,
+	}
+	node, err := e.encodeValue(ctx, v.val, v.typ)
+	if err.typ != nil {
+		return TupleV{e.zero(types.NewSlice(types.Typ[types.Uint8])), err}
+	}
+	return TupleV{e.bytesFromRope(Rope{SegItem{node}}), Iface{}}
 }
-func (e *Engine) cborUnmarshal(opts *StructV, data BytesV, target Iface) Value {
-	e.unsupported("cbor unmarshal model not built")
-	return nil
+
+func (e *Engine) nullNode() *Node {
+	n := e.newNode(7, e.c64(22))
+	return n
 }
+
+func (e *Engine) rawNode(r Rope) *Node {
+	n := e.newNode(-1, nil)
+	n.raw = r
+	return n
+}
+
+func (e *Engine) encodeValue(ctx encCtx, v Value, t types.Type) (*Node, Iface) {
+	tt := e.tt
+	if t == nil {
+		return e.nullNode(), Iface{}
+	}
+	// pointers: nil -> null, else indirect
+	if pt, ok := t.Underlying().(*types.Pointer); ok {
+		p := v.(PtrV)
+		// a pointer type that itself implements Marshaler via pointer receiver is handled below on the element
+		if p.isNil() {
+			return e.nullNode(), Iface{}
+		}
+		et := pt.Elem()
+		if fn, ptrRecv := e.findMethod(et, "MarshalCBOR"); fn != nil && !isSpecialCborType(et) {
+			var recv Value = p
+			if !ptrRecv {
+				recv = e.load(p)
+			}
+			return e.callMarshaler(fn, recv)
+		}
+		return e.encodeValue(ctx, e.load(p), et)
+	}
+	// special types of the cbor package
+	switch {
+	case namedIs(t, cborPath, "RawMessage"):
+		b := v.(BytesV)
+		if e.branch(tt.Eq(b.n, e.c64(0))) {
+			return e.nullNode(), Iface{}
+		}
+		return e.rawNode(e.bytesRope(b)), Iface{}
+	case namedIs(t, cborPath, "Tag"):
+		if ctx.tagsForbidden {
+			return nil, e.mkErr("cbor: cannot encode cbor.Tag when TagsMd is TagsForbidden")
+		}
+		sv := v.(*StructV)
+		num := sv.fields[0].(*Term)
+		content := sv.fields[1].(Iface)
+		if content.typ == nil && e.branch(tt.Eq(num, e.c64(0))) {
+			return e.nullNode(), Iface{}
+		}
+		kid, err := e.encodeValue(ctx, content.val, content.typ)
+		if err.typ != nil {
+			return nil, err
+		}
+		n := e.newNode(6, num)
+		n.kids = []*Node{kid}
+		return n, Iface{}
+	case namedIs(t, cborPath, "SimpleValue"):
+		return e.newNode(7, tt.ZExt(v.(*Term), 64)), Iface{}
+	case namedIs(t, cborPath, "ByteString"):
+		s := v.(StrV)
+		n := e.newNode(2, e.ropeLen(s.r))
+		n.content = s.r
+		return n, Iface{}
+	case isBigInt(t), namedIs(t, "time", "Time"):
+		e.unsupported("encoding of " + t.String() + " (outside the modelled data model)")
+	}
+	if fn, ptrRecv := e.findMethod(t, "MarshalCBOR"); fn != nil {
+		var recv Value = v
+		if ptrRecv {
+			recv = PtrV{cell: e.newCell(v, "marshaler copy")}
+		}
+		return e.callMarshaler(fn, recv)
+	}
+	switch u := t.Underlying().(type) {
+	case *types.Basic:
+		switch {
+		case u.Info()&types.IsBoolean != 0:
+			return e.newNode(7, tt.Ite(v.(*Term), e.c64(21), e.c64(20))), Iface{}
+		case u.Info()&types.IsInteger != 0:
+			w, signed, _ := intWidth(u)
+			x := v.(*Term)
+			if !signed {
+				return e.newNode(0, tt.ZExt(x, 64)), Iface{}
+			}
+			x64 := tt.SExt(x, 64)
+			_ = w
+			neg := tt.Cmp("bvslt", x64, e.c64(0))
+			if neg.isConst() {
+				if neg.isTrue() {
+					return e.newNode(1, tt.BVNot(x64)), Iface{}
+				}
+				return e.newNode(0, x64), Iface{}
+			}
+			n := e.newNode(0, tt.Ite(neg, tt.BVNot(x64), x64))
+			n.neg = neg
+			return n, Iface{}
+		case u.Info()&types.IsString != 0:
+			s := v.(StrV)
+			n := e.newNode(3, e.ropeLen(s.r))
+			n.content = s.r
+			return n, Iface{}
+		case u.Info()&types.IsFloat != 0:
+			n := e.newNode(7, tt.Var(e.freshName("floatbits"), 64))
+			n.wvar = tt.BVu(8, 8)
+			return n, Iface{}
+		}
+	case *types.Slice:
+		if isByteSlice(t) {
+			b := v.(BytesV)
+			if b.obj == nil && ctx.nilAsNull {
+				return e.nullNode(), Iface{}
+			}
+			n := e.newNode(2, b.n)
+			n.content = e.bytesRope(b)
+			return n, Iface{}
+		}
+		s := v.(SliceV)
+		if s.obj == nil && ctx.nilAsNull {
+			return e.nullNode(), Iface{}
+		}
+		n := e.newNode(4, e.c64(uint64(s.n)))
+		for i := 0; i < s.n; i++ {
+			kid, err := e.encodeElem(ctx, s.obj.elems[s.off+i], u.Elem())
+			if err.typ != nil {
+				return nil, err
+			}
+			n.kids = append(n.kids, kid)
+		}
+		return n, Iface{}
+	case *types.Array:
+		a := v.(*ArrayV)
+		if b, ok := u.Elem().Underlying().(*types.Basic); ok && b.Kind() == types.Uint8 {
+			var r Rope
+			for _, el := range a.elems {
+				r = append(r, SegSym{el.(*Term)})
+			}
+			n := e.newNode(2, e.c64(uint64(len(a.elems))))
+			n.content = r
+			return n, Iface{}
+		}
+		n := e.newNode(4, e.c64(uint64(len(a.elems))))
+		for _, el := range a.elems {
+			kid, err := e.encodeElem(ctx, el, u.Elem())
+			if err.typ != nil {
+				return nil, err
+			}
+			n.kids = append(n.kids, kid)
+		}
+		return n, Iface{}
+	case *types.Map:
+		m := v.(MapV)
+		if m.obj == nil && ctx.nilAsNull {
+			return e.nullNode(), Iface{}
+		}
+		it := e.makeRange(m).(*rangeIter)
+		n := e.newNode(5, e.c64(uint64(len(it.entries))))
+		for _, en := range it.entries {
+			k, err := e.encodeElem(ctx, en.k, u.Key())
+			if err.typ != nil {
+				return nil, err
+			}
+			val, err := e.encodeElem(ctx, en.v, u.Elem())
+			if err.typ != nil {
+				return nil, err
+			}
+			n.kids = append(n.kids, k, val)
+		}
+		n.sortMode = ctx.sort
+		n.sorted = len(it.entries) <= 1 || ctx.sort == 0
+		return n, Iface{}
+	case *types.Struct:
+		toArray := false
+		for i := 0; i < u.NumFields(); i++ {
+			if u.Field(i).Name() == "_" && strings.Contains(u.Tag(i), "toarray") {
+				toArray = true
+			}
+		}
+		if !toArray {
+			e.unsupported("encoding of struct without toarray: " + t.String())
+		}
+		sv := v.(*StructV)
+		n := e.newNode(4, nil)
+		for i := 0; i < u.NumFields(); i++ {
+			if u.Field(i).Name() == "_" || !u.Field(i).Exported() {
+				continue
+			}
+			kid, err := e.encodeElem(ctx, sv.fields[i], u.Field(i).Type())
+			if err.typ != nil {
+				return nil, err
+			}
+			n.kids = append(n.kids, kid)
+		}
+		n.arg = e.c64(uint64(len(n.kids)))
+		return n, Iface{}
+	case *types.Interface:
+		ifc := v.(Iface)
+		return e.encodeValue(ctx, ifc.val, ifc.typ)
+	case *types.Chan, *types.Signature:
+		return nil, e.mkErr("cbor: unsupported type: " + t.String())
+	}
+	e.unsupported("encodeValue of " + t.String())
+	return nil, Iface{}
+}
+
+func isSpecialCborType(t types.Type) bool {
+	return namedIs(t, cborPath, "RawMessage") || namedIs(t, cborPath, "Tag") || namedIs(t, cborPath, "ByteString") || namedIs(t, cborPath, "SimpleValue")
+}
+
+func (e *Engine) encodeElem(ctx encCtx, v Value, static types.Type) (*Node, Iface) {
+	if _, ok := static.Underlying().(*types.Interface); ok {
+		ifc := v.(Iface)
+		return e.encodeValue(ctx, ifc.val, ifc.typ)
+	}
+	return e.encodeValue(ctx, v, static)
+}
+
+func (e *Engine) callMarshaler(fn *ssa.Function, recv Value) (*Node, Iface) {
+	res := e.callStatic(fn, []Value{recv}).(TupleV)
+	if err := res[1].(Iface); err.typ != nil {
+		return nil, err
+	}
+	return e.rawNode(e.bytesRope(res[0].(BytesV))), Iface{}
+}
+
+// ---- canonical ordering of encoder-produced maps (lazy) -------------------------------------------------
+
+func (e *Engine) resolveOrder(n *Node) {
+	if n.sorted || n.major != 5 {
+		return
+	}
+	n.sorted = true
+	cnt := len(n.kids) / 2
+	// insertion sort with symbolic comparisons (forks)
+	for i := 1; i < cnt; i++ {
+		for j := i; j > 0; j-- {
+			a, b := n.kids[2*(j-1)], n.kids[2*j]
+			less, eq := e.keyOrder(a, b, n.sortMode)
+			if e.branch(less) {
+				break
+			}
+			if e.branch(eq) {
+				// equal encoded keys: sort.Sort is unstable, the order is unspecified
+				if !e.mapOrderNondet || e.choose(2) == 0 {
+					break
+				}
+			}
+			n.kids[2*(j-1)], n.kids[2*(j-1)+1], n.kids[2*j], n.kids[2*j+1] = n.kids[2*j], n.kids[2*j+1], n.kids[2*(j-1)], n.kids[2*(j-1)+1]
+		}
+	}
+}
+
+// keyOrder returns (a strictly before b, encodings equal) for the given sort mode.
+func (e *Engine) keyOrder(a, b *Node, mode int) (*Term, *Term) {
+	tt := e.tt
+	a, b = e.derefRaw(a), e.derefRaw(b)
+	if a.major < 0 || b.major < 0 || a.wvar != nil || b.wvar != nil {
+		e.unsupported("map key order on raw / non-minimal key")
+	}
+	bytewise := func() (*Term, *Term) {
+		if a.major != b.major {
+			return tt.Bool(a.major < b.major), tt.Bool(false)
+		}
+		switch a.major {
+		case 0, 1, 7:
+			return tt.Cmp("bvult", a.arg, b.arg), tt.Eq(a.arg, b.arg)
+		case 2, 3:
+			lenLess := tt.Cmp("bvult", a.arg, b.arg)
+			lenEq := tt.Eq(a.arg, b.arg)
+			cl, ce := e.ropeLex(a.content, b.content, lenEq)
+			return tt.Or(lenLess, tt.And(lenEq, cl)), tt.And(lenEq, ce)
+		}
+		e.unsupported(fmt.Sprintf("map key order for major type %d", a.major))
+		return nil, nil
+	}
+	less, eq := bytewise()
+	if mode == 1 { // length first
+		la, lb := e.itemLen(a), e.itemLen(b)
+		return tt.Or(tt.Cmp("bvult", la, lb), tt.And(tt.Eq(la, lb), less)), eq
+	}
+	return less, eq
+}
+
+func (e *Engine) derefRaw(n *Node) *Node {
+	if n.neg != nil {
+		return e.fixMajor(n)
+	}
+	for n.major < 0 {
+		sub, rest, err := e.parseOne(n.raw)
+		if err != "" || len(rest) != 0 {
+			return n
+		}
+		n = sub
+	}
+	return n
+}
+
+// ropeLex compares two byte strings of equal length (assumed under lenEq) lexicographically.
+func (e *Engine) ropeLex(a, b Rope, lenEq *Term) (*Term, *Term) {
+	tt := e.tt
+	ab, okA := e.ropeByteTerms(a)
+	bb, okB := e.ropeByteTerms(b)
+	if okA && okB {
+		if len(ab) != len(bb) {
+			return tt.Bool(false), tt.Bool(false)
+		}
+		less, eq := tt.Bool(false), tt.Bool(true)
+		for i := len(ab) - 1; i >= 0; i-- {
+			less = tt.Or(tt.Cmp("bvult", ab[i], bb[i]), tt.And(tt.Eq(ab[i], bb[i]), less))
+		}
+		for i := range ab {
+			eq = tt.And(eq, tt.Eq(ab[i], bb[i]))
+		}
+		return less, eq
+	}
+	// opaque contents
+	ka, kb := e.ropeKey(a), e.ropeKey(b)
+	if ka == kb {
+		return tt.Bool(false), tt.Bool(true)
+	}
+	l := tt.UF("lexless", 0, e.intern("rope", ka), e.intern("rope", kb))
+	q := tt.UF("lexeq", 0, e.intern("rope", ka), e.intern("rope", kb))
+	return tt.And(l, tt.Not(q)), q
+}
+
+func (e *Engine) ropeByteTerms(r Rope) ([]*Term, bool) {
+	var out []*Term
+	for _, s := range r {
+		switch x := s.(type) {
+		case SegLit:
+			for _, b := range x.b {
+				out = append(out, e.tt.BVu(uint64(b), 8))
+			}
+		case SegSym:
+			out = append(out, x.t)
+		default:
+			return nil, false
+		}
+	}
+	return out, true
+}
+
+// ---- decoding ---------------------------------------------------------------------------------------------
+
+type decCtx struct {
+	tagsForbidden bool
+	indefForbidden bool
+	dupEnforced   bool
+	intDecSigned  bool
+	opts          *StructV
+	input         *BytesObj
+}
+
+func (e *Engine) decCtxOf(opts *StructV, data BytesV) decCtx {
+	root := data.obj
+	for root != nil && root.aliasOf != nil {
+		root = root.aliasOf
+	}
+	return decCtx{
+		tagsForbidden:  e.optField(opts, "DecOptions", "TagsMd") == 1,
+		indefForbidden: e.optField(opts, "DecOptions", "IndefLength") == 0,
+		dupEnforced:    e.optField(opts, "DecOptions", "DupMapKey") == 1,
+		intDecSigned:   e.optField(opts, "DecOptions", "IntDec") == 1,
+		opts:           opts,
+		input:          root,
+	}
+}
+
+// parseOne recognises one data item at the start of a rope.
+// err != "" is a syntax error of the byte-level scan.
+func (e *Engine) parseOne(r Rope) (n *Node, rest Rope, err string) {
+	for len(r) > 0 {
+		if l := e.segLen(r[0]); l.isConst() && l.u64() == 0 {
+			r = r[1:]
+			continue
+		}
+		break
+	}
+	if len(r) == 0 {
+		return nil, nil, "EOF"
+	}
+	switch x := r[0].(type) {
+	case SegItem:
+		if x.node.major < 0 {
+			sub, subrest, serr := e.parseOne(x.node.raw)
+			if serr != "" {
+				return nil, nil, serr
+			}
+			return sub, ropeConcat(subrest, r[1:]), ""
+		}
+		return x.node, r[1:], ""
+	case SegHead:
+		body := e.bodyRope(x.node)
+		if len(r)-1 < len(body) {
+			e.unsupported("decode of partially overwritten item")
+		}
+		for i, s := range body {
+			if !sameSeg(s, r[1+i]) {
+				e.unsupported("decode of restructured item")
+			}
+		}
+		return x.node, r[1+len(body):], ""
+	case SegBlob:
+		if strings.HasPrefix(x.arr.name, "blob:garbage") {
+			return nil, nil, "syntax error (unstructured input)"
+		}
+		e.unsupported("decode of opaque blob " + x.arr.name)
+	}
+	// literal bytes
+	var buf []byte
+	k := 0
+	for k < len(r) {
+		if l, ok := r[k].(SegLit); ok {
+			buf = append(buf, l.b...)
+			k++
+			continue
+		}
+		if s, ok := r[k].(SegSym); ok && s.t.isConst() {
+			buf = append(buf, byte(s.t.u64()))
+			k++
+			continue
+		}
+		break
+	}
+	if len(buf) == 0 {
+		e.unsupported(fmt.Sprintf("decode of rope starting with %T", r[0]))
+	}
+	node, used, perr := e.parseConcrete(buf, 0)
+	if perr != "" {
+		if k < len(r) {
+			e.unsupported("decode of mixed literal/symbolic rope")
+		}
+		return nil, nil, perr
+	}
+	restR := ropeLit(buf[used:])
+	return node, ropeConcat(restR, r[k:]), ""
+}
+
+func sameSeg(a, b Seg) bool {
+	switch x := a.(type) {
+	case SegItem:
+		y, ok := b.(SegItem)
+		return ok && x.node == y.node
+	case SegHead:
+		y, ok := b.(SegHead)
+		return ok && x.node == y.node
+	case SegBlob:
+		y, ok := b.(SegBlob)
+		return ok && x == y
+	case SegSym:
+		y, ok := b.(SegSym)
+		return ok && x == y
+	case SegLit:
+		y, ok := b.(SegLit)
+		return ok && string(x.b) == string(y.b)
+	case SegZero:
+		y, ok := b.(SegZero)
+		return ok && x == y
+	case SegIntBE:
+		y, ok := b.(SegIntBE)
+		return ok && x == y
+	}
+	return false
+}
+
+// parseConcrete parses one item from bytes.
+func (e *Engine) parseConcrete(b []byte, depth int) (*Node, int, string) {
+	if len(b) == 0 {
+		return nil, 0, "unexpected EOF"
+	}
+	if depth > 40 {
+		return nil, 0, "exceeded max nested level"
+	}
+	major := int(b[0] >> 5)
+	ai := b[0] & 0x1f
+	var arg uint64
+	w := 0
+	pos := 1
+	indef := false
+	switch {
+	case ai < 24:
+		arg = uint64(ai)
+	case ai == 24, ai == 25, ai == 26, ai == 27:
+		w = 1 << (ai - 24)
+		if len(b) < 1+w {
+			return nil, 0, "unexpected EOF"
+		}
+		for i := 0; i < w; i++ {
+			arg = arg<<8 | uint64(b[1+i])
+		}
+		pos = 1 + w
+	case ai == 31:
+		if major == 0 || major == 1 || major == 6 || major == 7 {
+			return nil, 0, "invalid additional information 31"
+		}
+		indef = true
+	default:
+		return nil, 0, "reserved additional information"
+	}
+	n := e.newNode(major, e.c64(arg))
+	n.wvar = e.tt.BVu(uint64(w), 8)
+	n.indef = indef
+	switch major {
+	case 0, 1:
+	case 7:
+		if ai == 24 && arg < 32 {
+			return nil, 0, "invalid simple value"
+		}
+	case 2, 3:
+		if indef {
+			// chunks
+			var content []byte
+			for {
+				if pos >= len(b) {
+					return nil, 0, "unexpected EOF"
+				}
+				if b[pos] == 0xff {
+					pos++
+					break
+				}
+				if int(b[pos]>>5) != major || b[pos]&0x1f == 31 {
+					return nil, 0, "wrong chunk type in indefinite-length string"
+				}
+				c, used, err := e.parseConcrete(b[pos:], depth+1)
+				if err != "" {
+					return nil, 0, err
+				}
+				cb, _ := ropeConcrete(c.content)
+				content = append(content, cb...)
+				pos += used
+			}
+			n.content = ropeLit(content)
+			n.arg = e.c64(uint64(len(content)))
+			return n, pos, ""
+		}
+		if arg > uint64(len(b)-pos) {
+			return nil, 0, "unexpected EOF"
+		}
+		n.content = ropeLit(b[pos : pos+int(arg)])
+		pos += int(arg)
+	case 4, 5, 6:
+		count := arg
+		if major == 5 {
+			count = 2 * arg
+		}
+		if major == 6 {
+			count = 1
+		}
+		if indef {
+			for {
+				if pos >= len(b) {
+					return nil, 0, "unexpected EOF"
+				}
+				if b[pos] == 0xff {
+					pos++
+					break
+				}
+				k, used, err := e.parseConcrete(b[pos:], depth+1)
+				if err != "" {
+					return nil, 0, err
+				}
+				n.kids = append(n.kids, k)
+				pos += used
+			}
+			if major == 5 && len(n.kids)%2 != 0 {
+				return nil, 0, "odd number of items in indefinite-length map"
+			}
+			n.arg = e.c64(uint64(len(n.kids)))
+			if major == 5 {
+				n.arg = e.c64(uint64(len(n.kids) / 2))
+			}
+			return n, pos, ""
+		}
+		if count > uint64(len(b)) {
+			return nil, 0, "unexpected EOF"
+		}
+		for i := uint64(0); i < count; i++ {
+			k, used, err := e.parseConcrete(b[pos:], depth+1)
+			if err != "" {
+				return nil, 0, err
+			}
+			n.kids = append(n.kids, k)
+			pos += used
+		}
+	}
+	return n, pos, ""
+}
+
+// wellformed applies the mode rules to a tree (bstr contents are opaque).
+func (e *Engine) wellformed(ctx decCtx, n *Node, depth int) string {
+	n = e.derefRaw(n)
+	if n.major < 0 {
+		e.unsupported("wellformedness of unparsable raw item")
+	}
+	if n.indef && ctx.indefForbidden {
+		return "indefinite-length items are forbidden"
+	}
+	if depth > 32 {
+		return "exceeded max nested level 32"
+	}
+	switch n.major {
+	case 6:
+		if ctx.tagsForbidden {
+			return "CBOR tag isn't allowed"
+		}
+	case 7:
+		// 2-byte simple values below 32 are not well-formed
+		w := e.nodeWidth(n)
+		if e.branch(e.tt.And(e.tt.Eq(w, e.tt.BVu(1, 8)), e.tt.Cmp("bvult", n.arg, e.c64(32)))) {
+			return "invalid simple value"
+		}
+	}
+	for _, k := range n.kids {
+		if s := e.wellformed(ctx, k, depth+1); s != "" {
+			return s
+		}
+	}
+	return ""
+}
+
 func (e *Engine) cborWellformed(opts *StructV, data BytesV) Value {
-	e.unsupported("cbor wellformed model not built")
+	ctx := e.decCtxOf(opts, data)
+	r := e.bytesRope(data)
+	if e.branch(e.tt.Eq(e.ropeLen(r), e.c64(0))) {
+		return e.load(PtrV{cell: e.foreignGlobal("io.EOF")})
+	}
+	n, rest, perr := e.parseOne(r)
+	if perr != "" {
+		return e.mkErr("cbor: " + perr)
+	}
+	if s := e.wellformed(ctx, n, 1); s != "" {
+		return e.mkErr("cbor: " + s)
+	}
+	if !e.branch(e.tt.Eq(e.ropeLen(rest), e.c64(0))) {
+		return e.mkErr("cbor: extraneous data")
+	}
+	return Iface{}
+}
+
+func (e *Engine) foreignGlobal(name string) *Cell {
+	for _, p := range e.prog.AllPackages() {
+		for _, m := range p.Members {
+			if g, ok := m.(*ssa.Global); ok && g.String() == name {
+				return e.globalCell(g)
+			}
+		}
+	}
+	e.unsupported("global not found: " + name)
 	return nil
+}
+
+func (e *Engine) cborUnmarshal(opts *StructV, data BytesV, target Iface) Value {
+	ctx := e.decCtxOf(opts, data)
+	r := e.bytesRope(data)
+	if e.branch(e.tt.Eq(e.ropeLen(r), e.c64(0))) {
+		return e.load(PtrV{cell: e.foreignGlobal("io.EOF")})
+	}
+	n, rest, perr := e.parseOne(r)
+	if perr != "" {
+		return e.mkErr("cbor: " + perr)
+	}
+	if s := e.wellformed(ctx, n, 1); s != "" {
+		return e.mkErr("cbor: " + s)
+	}
+	if !e.branch(e.tt.Eq(e.ropeLen(rest), e.c64(0))) {
+		return e.mkErr("cbor: extraneous data")
+	}
+	if target.typ == nil {
+		return e.mkErr("cbor: Unmarshal(nil)")
+	}
+	pt, ok := target.typ.Underlying().(*types.Pointer)
+	if !ok {
+		return e.mkErr("cbor: Unmarshal(non-pointer)")
+	}
+	dst := target.val.(PtrV)
+	if dst.isNil() {
+		return e.mkErr("cbor: Unmarshal(nil pointer)")
+	}
+	return e.decodeTo(ctx, n, dst, pt.Elem())
+}
+
+func (e *Engine) isNullNode(n *Node) bool {
+	if n.major != 7 {
+		return false
+	}
+	w := e.nodeWidth(n)
+	return e.branch(e.tt.And(e.tt.Eq(w, e.tt.BVu(0, 8)), e.tt.Or(e.tt.Eq(n.arg, e.c64(22)), e.tt.Eq(n.arg, e.c64(23)))))
+}
+
+func emptyIface() types.Type { return types.NewInterfaceType(nil, nil) }
+
+func (e *Engine) typeErr(n *Node, t types.Type) Iface {
+	return e.mkErr(fmt.Sprintf("cbor: cannot unmarshal major type %d into Go value of type %s", n.major, t))
+}
+
+// itemView makes the []byte handed to an UnmarshalCBOR callback: a view of the input buffer.
+func (e *Engine) itemView(ctx decCtx, n *Node) BytesV {
+	b := e.bytesFromRope(Rope{SegItem{n}})
+	b.obj.aliasOf = ctx.input
+	if ctx.input != nil {
+		b.obj.epoch = ctx.input.epoch
+		b.obj.tag = "view:" + ctx.input.tag
+	}
+	return b
+}
+
+func (e *Engine) decodeTo(ctx decCtx, n *Node, dst PtrV, t types.Type) Iface {
+	tt := e.tt
+	n = e.derefRaw(n)
+	isNull := e.isNullNode(n)
+	// pointers: allocate unless null
+	if pt, ok := t.Underlying().(*types.Pointer); ok {
+		cur := e.load(dst).(PtrV)
+		if isNull {
+			// Unmarshaler on nil pointer with null: skip; otherwise fillNil
+			e.store(dst, PtrV{})
+			return Iface{}
+		}
+		if cur.isNil() {
+			cur = PtrV{cell: e.newCell(e.zero(pt.Elem()), "decoded *"+pt.Elem().String())}
+			e.store(dst, cur)
+		}
+		return e.decodeTo(ctx, n, cur, pt.Elem())
+	}
+	// empty interface target
+	if it, ok := t.Underlying().(*types.Interface); ok {
+		if it.NumMethods() != 0 {
+			e.unsupported("decode into non-empty interface")
+		}
+		if cur := e.load(dst).(Iface); cur.typ != nil {
+			e.unsupported("decode into non-nil interface value")
+		}
+		v, err := e.parseAny(ctx, n)
+		if v.typ != nil {
+			e.store(dst, v)
+		}
+		return err
+	}
+	// special cbor types
+	switch {
+	case namedIs(t, cborPath, "RawMessage"):
+		e.store(dst, e.bytesFromRope(Rope{SegItem{n}}))
+		return Iface{}
+	case namedIs(t, cborPath, "Tag"), namedIs(t, "time", "Time"), isBigInt(t):
+		e.unsupported("decode into " + t.String())
+	}
+	// Unmarshaler
+	if fn, _ := e.findMethod(types.NewPointer(t), "UnmarshalCBOR"); fn != nil {
+		res := e.callStatic(fn, []Value{dst, e.itemView(ctx, n)})
+		return res.(Iface)
+	}
+	if n.major == 6 {
+		// tags are transparent for typed targets (except built-ins, outside the model)
+		if e.branch(tt.Cmp("bvult", n.arg, e.c64(4))) {
+			e.unsupported("built-in tag 0..3 into typed target")
+		}
+		if e.branch(tt.Eq(n.arg, e.c64(55799))) {
+			e.unsupported("self-described tag")
+		}
+		return e.decodeTo(ctx, n.kids[0], dst, t)
+	}
+	if isNull {
+		switch t.Underlying().(type) {
+		case *types.Slice, *types.Map:
+			e.store(dst, e.zero(t))
+		}
+		return Iface{}
+	}
+	switch u := t.Underlying().(type) {
+	case *types.Basic:
+		switch {
+		case u.Info()&types.IsInteger != 0:
+			w, signed, _ := intWidth(u)
+			switch n.major {
+			case 0, 7:
+				if n.major == 7 {
+					// simple values < 20 or 32..255 fill as positive ints; bools/floats are type errors
+					wd := e.nodeWidth(n)
+					if !e.branch(tt.Or(tt.Eq(wd, tt.BVu(0, 8)), tt.Eq(wd, tt.BVu(1, 8)))) {
+						return e.typeErr(n, t)
+					}
+					if e.branch(tt.Or(tt.Eq(n.arg, e.c64(20)), tt.Eq(n.arg, e.c64(21)))) {
+						return e.typeErr(n, t)
+					}
+				}
+				limit := e.c64(1<<uint(w) - 1)
+				if w == 64 {
+					limit = e.c64(^uint64(0))
+				}
+				if signed {
+					limit = e.c64(1<<uint(w-1) - 1)
+				}
+				if e.branch(tt.Cmp("bvugt", n.arg, limit)) {
+					return e.mkErr("cbor: cannot unmarshal positive integer: overflows " + t.String())
+				}
+				e.store(dst, tt.Extract(n.arg, w-1, 0))
+				return Iface{}
+			case 1:
+				if !signed {
+					return e.typeErr(n, t)
+				}
+				if e.branch(tt.Cmp("bvugt", n.arg, e.c64(1<<uint(w-1)-1))) {
+					return e.mkErr("cbor: cannot unmarshal negative integer: overflows " + t.String())
+				}
+				e.store(dst, tt.Extract(tt.BVNot(n.arg), w-1, 0))
+				return Iface{}
+			}
+			return e.typeErr(n, t)
+		case u.Info()&types.IsString != 0:
+			if n.major != 3 {
+				return e.typeErr(n, t)
+			}
+			if err := e.utf8Check(n.content); err.typ != nil {
+				return err
+			}
+			e.store(dst, StrV{n.content})
+			return Iface{}
+		case u.Info()&types.IsBoolean != 0:
+			if n.major == 7 {
+				wd := e.nodeWidth(n)
+				if e.branch(tt.And(tt.Eq(wd, tt.BVu(0, 8)), tt.Or(tt.Eq(n.arg, e.c64(20)), tt.Eq(n.arg, e.c64(21))))) {
+					e.store(dst, tt.Eq(n.arg, e.c64(21)))
+					return Iface{}
+				}
+			}
+			return e.typeErr(n, t)
+		}
+	case *types.Slice:
+		if isByteSlice(t) {
+			switch n.major {
+			case 2:
+				e.store(dst, e.bytesFromRope(n.content)) // copy
+				if lz := e.ropeLen(n.content); lz.isConst() && lz.u64() == 0 {
+					// empty, non-nil
+					o := e.newBytesObj(nil, e.c64(0))
+					e.store(dst, BytesV{obj: o, off: e.c64(0), n: e.c64(0), cap: e.c64(0)})
+				}
+				return Iface{}
+			case 4:
+				// array of small integers into []byte
+				return e.decodeArrayToSlice(ctx, n, dst, t, u)
+			}
+			return e.typeErr(n, t)
+		}
+		if n.major != 4 {
+			return e.typeErr(n, t)
+		}
+		return e.decodeArrayToSlice(ctx, n, dst, t, u)
+	case *types.Struct:
+		if n.major != 4 {
+			return e.typeErr(n, t)
+		}
+		toArray := false
+		var fieldIdx []int
+		for i := 0; i < u.NumFields(); i++ {
+			if u.Field(i).Name() == "_" {
+				if strings.Contains(u.Tag(i), "toarray") {
+					toArray = true
+				}
+				continue
+			}
+			if u.Field(i).Exported() {
+				fieldIdx = append(fieldIdx, i)
+			}
+		}
+		if !toArray {
+			return e.mkErr("cbor: cannot decode CBOR array to struct without toarray option")
+		}
+		if len(n.kids) != len(fieldIdx) {
+			return e.mkErr("cbor: cannot decode CBOR array to struct with different number of elements")
+		}
+		var first Iface
+		for i, fi := range fieldIdx {
+			fp := dst
+			fp.path = append(append([]int{}, dst.path...), fi)
+			if err := e.decodeTo(ctx, n.kids[i], fp, u.Field(fi).Type()); err.typ != nil && first.typ == nil {
+				first = err
+			}
+		}
+		return first
+	case *types.Map:
+		if n.major != 5 {
+			return e.typeErr(n, t)
+		}
+		return e.decodeMapToMap(ctx, n, dst, u)
+	}
+	e.unsupported("decodeTo into " + t.String())
+	return Iface{}
+}
+
+func (e *Engine) decodeArrayToSlice(ctx decCtx, n *Node, dst PtrV, t types.Type, u *types.Slice) Iface {
+	count := len(n.kids)
+	if isByteSlice(t) {
+		// each element must fit uint8
+		var r Rope
+		var first Iface
+		for _, k := range n.kids {
+			c := e.newCell(e.tt.BVu(0, 8), "elem")
+			if err := e.decodeTo(ctx, k, PtrV{cell: c}, u.Elem()); err.typ != nil && first.typ == nil {
+				first = err
+			}
+			r = append(r, SegSym{c.val.(*Term)})
+		}
+		e.store(dst, e.bytesFromRope(r))
+		return first
+	}
+	cur := e.load(dst).(SliceV)
+	var arr *ArrObj
+	if cur.obj == nil || cur.cap < count || count == 0 {
+		elems := make([]Value, count)
+		for i := range elems {
+			elems[i] = e.zero(u.Elem())
+		}
+		arr = e.newArrObj(elems)
+		cur = SliceV{obj: arr, off: 0, n: count, cap: count}
+	} else {
+		cur = SliceV{obj: cur.obj, off: cur.off, n: count, cap: cur.cap}
+	}
+	e.store(dst, cur)
+	var first Iface
+	for i, k := range n.kids {
+		if err := e.decodeTo(ctx, k, PtrV{arr: cur.obj, idx: cur.off + i}, u.Elem()); err.typ != nil && first.typ == nil {
+			first = err
+		}
+	}
+	return first
+}
+
+func (e *Engine) decodeMapToMap(ctx decCtx, n *Node, dst PtrV, u *types.Map) Iface {
+	m := e.load(dst).(MapV)
+	if m.obj == nil {
+		m = MapV{obj: e.newMapObj()}
+		e.store(dst, m)
+	}
+	existing := len(m.obj.entries)
+	if existing > 0 {
+		e.unsupported("decode into non-empty map")
+	}
+	_, keyIsIface := u.Key().Underlying().(*types.Interface)
+	var first Iface
+	for i := 0; i+1 < len(n.kids); i += 2 {
+		kc := e.newCell(e.zero(u.Key()), "mapkey")
+		if err := e.decodeTo(ctx, n.kids[i], PtrV{cell: kc}, u.Key()); err.typ != nil {
+			if first.typ == nil {
+				first = err
+			}
+			continue
+		}
+		key := kc.val
+		if keyIsIface {
+			kif := key.(Iface)
+			if kif.typ != nil {
+				conv, ok := e.hashableKey(kif)
+				if !ok {
+					if first.typ == nil {
+						first = e.mkErr("cbor: invalid map key type: " + kif.typ.String())
+					}
+					continue
+				}
+				key = conv
+			}
+		}
+		vc := e.newCell(e.zero(u.Elem()), "mapval")
+		if err := e.decodeTo(ctx, n.kids[i+1], PtrV{cell: vc}, u.Elem()); err.typ != nil {
+			if first.typ == nil {
+				first = err
+			}
+			continue
+		}
+		before := len(m.obj.entries)
+		e.mapUpdate(m, key, vc.val)
+		if ctx.dupEnforced && len(m.obj.entries) == before {
+			return e.mkErr("cbor: found duplicate map key")
+		}
+	}
+	return first
+}
+
+// hashableKey mirrors isHashableValue / convertByteSliceToByteString.
+func (e *Engine) hashableKey(k Iface) (Iface, bool) {
+	if isByteSlice(k.typ) {
+		bs := e.lookupType(cborPath, "ByteString")
+		return Iface{typ: bs, val: StrV{e.bytesRope(k.val.(BytesV))}}, true
+	}
+	switch k.typ.Underlying().(type) {
+	case *types.Slice, *types.Map, *types.Signature:
+		return k, false
+	}
+	if isBigInt(k.typ) {
+		return k, false
+	}
+	if namedIs(k.typ, cborPath, "Tag") {
+		content := k.val.(*StructV).fields[1].(Iface)
+		if content.typ == nil {
+			return k, true
+		}
+		c, ok := e.hashableKey(content)
+		if !ok {
+			return k, false
+		}
+		return Iface{typ: k.typ, val: &StructV{fields: []Value{k.val.(*StructV).fields[0], c}}}, true
+	}
+	return k, true
+}
+
+func (e *Engine) utf8Check(r Rope) Iface {
+	if b, ok := ropeConcrete(r); ok {
+		if !utf8.Valid(b) {
+			return e.mkErr("cbor: invalid UTF-8 string")
+		}
+		return Iface{}
+	}
+	valid := e.tt.UF("utf8valid", 0, e.intern("rope", e.ropeKey(r)))
+	if !e.branch(valid) {
+		return e.mkErr("cbor: invalid UTF-8 string")
+	}
+	return Iface{}
+}
+
+// parseAny decodes into the default Go types (decoder.parse).
+func (e *Engine) parseAny(ctx decCtx, n *Node) (Iface, Iface) {
+	tt := e.tt
+	n = e.derefRaw(n)
+	i64 := types.Typ[types.Int64]
+	switch n.major {
+	case 0:
+		if !ctx.intDecSigned {
+			return Iface{typ: types.Typ[types.Uint64], val: n.arg}, Iface{}
+		}
+		if e.branch(tt.Cmp("bvugt", n.arg, e.c64(1<<63-1))) {
+			return Iface{}, e.mkErr("cbor: cannot unmarshal positive integer into Go value of type int64: overflows Go's int64")
+		}
+		return Iface{typ: i64, val: n.arg}, Iface{}
+	case 1:
+		if e.branch(tt.Cmp("bvugt", n.arg, e.c64(1<<63-1))) {
+			bt := e.lookupType("math/big", "Int")
+			mag := tt.Bin("bvadd", tt.ZExt(n.arg, 72), tt.BVu(1, 72))
+			return Iface{typ: bt, val: BigV{mag: mag, neg: tt.Bool(true)}}, Iface{}
+		}
+		return Iface{typ: i64, val: tt.BVNot(n.arg)}, Iface{}
+	case 2:
+		b := e.bytesFromRope(n.content)
+		if b.obj.rope == nil {
+			// zero-length but non-nil
+		}
+		return Iface{typ: types.NewSlice(types.Typ[types.Uint8]), val: b}, Iface{}
+	case 3:
+		if err := e.utf8Check(n.content); err.typ != nil {
+			return Iface{}, err
+		}
+		return Iface{typ: types.Typ[types.String], val: StrV{n.content}}, Iface{}
+	case 4:
+		elems := make([]Value, len(n.kids))
+		var first Iface
+		for i, k := range n.kids {
+			v, err := e.parseAny(ctx, k)
+			if err.typ != nil {
+				if first.typ == nil {
+					first = err
+				}
+				elems[i] = Iface{}
+				continue
+			}
+			elems[i] = v
+		}
+		sl := SliceV{obj: e.newArrObj(elems), off: 0, n: len(elems), cap: len(elems)}
+		return Iface{typ: types.NewSlice(emptyIface()), val: sl}, first
+	case 5:
+		m := MapV{obj: e.newMapObj()}
+		mt := types.NewMap(emptyIface(), emptyIface())
+		var first Iface
+		for i := 0; i+1 < len(n.kids); i += 2 {
+			k, err := e.parseAny(ctx, n.kids[i])
+			if err.typ != nil {
+				if first.typ == nil {
+					first = err
+				}
+				continue
+			}
+			if k.typ != nil {
+				conv, ok := e.hashableKey(k)
+				if !ok {
+					if first.typ == nil {
+						first = e.mkErr("cbor: invalid map key type: " + k.typ.String())
+					}
+					continue
+				}
+				k = conv
+			}
+			v, err := e.parseAny(ctx, n.kids[i+1])
+			if err.typ != nil {
+				if first.typ == nil {
+					first = err
+				}
+				continue
+			}
+			before := len(m.obj.entries)
+			e.mapUpdate(m, k, v)
+			if ctx.dupEnforced && len(m.obj.entries) == before {
+				return Iface{typ: mt, val: m}, e.mkErr("cbor: found duplicate map key")
+			}
+		}
+		return Iface{typ: mt, val: m}, first
+	case 6:
+		if e.branch(tt.Cmp("bvult", n.arg, e.c64(4))) || e.branch(tt.Eq(n.arg, e.c64(55799))) {
+			e.unsupported("built-in tag in untyped position (outside the modelled data model)")
+		}
+		c, err := e.parseAny(ctx, n.kids[0])
+		if err.typ != nil {
+			return Iface{}, err
+		}
+		tagT := e.lookupType(cborPath, "Tag")
+		return Iface{typ: tagT, val: &StructV{fields: []Value{n.arg, c}}}, Iface{}
+	case 7:
+		w := e.nodeWidth(n)
+		if wk, ok := e.concretizeAmong(w, []uint64{0, 1, 2, 4, 8}); ok && wk >= 2 {
+			return Iface{typ: types.Typ[types.Float64], val: OpaqueV{kind: "float", data: n.id}}, Iface{}
+		}
+		if e.branch(tt.Eq(n.arg, e.c64(20))) {
+			return Iface{typ: types.Typ[types.Bool], val: tt.Bool(false)}, Iface{}
+		}
+		if e.branch(tt.Eq(n.arg, e.c64(21))) {
+			return Iface{typ: types.Typ[types.Bool], val: tt.Bool(true)}, Iface{}
+		}
+		if e.branch(tt.Or(tt.Eq(n.arg, e.c64(22)), tt.Eq(n.arg, e.c64(23)))) {
+			return Iface{}, Iface{}
+		}
+		return Iface{typ: e.lookupType(cborPath, "SimpleValue"), val: tt.Extract(n.arg, 7, 0)}, Iface{}
+	}
+	e.unsupported("parseAny")
+	return Iface{}, Iface{}
 }
